@@ -54,8 +54,14 @@ func NewURLKeyer() URLKeyer { return URLKeyerFunc(makeURLKey) }
 func makeURLKey(u *url.URL) string {
 	if u.Opaque != "" {
 		if scheme := strings.ToLower(u.Scheme); scheme == "http" || scheme == "https" {
-			// the same opaque part under http and https names different resources
-			return scheme + ":" + u.Opaque
+			// the same opaque part under http and https names different resources,
+			// and net/http connects to u.Host and sends Opaque?RawQuery as the
+			// request target: both belong to the key
+			key := scheme + ":[" + strings.ToLower(u.Host) + "]" + u.Opaque
+			if u.RawQuery != "" {
+				key += "?" + u.RawQuery
+			}
+			return key
 		}
 		return u.Opaque
 	}
@@ -99,6 +105,9 @@ func makeURLKey(u *url.URL) string {
 
 	// RFC 3986 §6.2.2.2: Normalize percent-encoding in path.
 	path = normalizePercentEncoding(path)
+	// RFC 3986 §6.2.2.3 once more: "%2E" has just become ".", and dot-segments
+	// spelled that way were not seen by ResolveReference.
+	path = removeDotSegments(path)
 	result := scheme + "://" + hostPort + path
 
 	// RFC 3986 §6.2.2.2: Normalize percent-encoding in query, if present.
@@ -140,6 +149,34 @@ func normalizePercentEncoding(s string) string {
 		}
 	}
 	return b.String()
+}
+
+// removeDotSegments applies RFC 3986 §5.2.4 to an absolute path.
+func removeDotSegments(p string) string {
+	if !strings.Contains(p, "/.") {
+		return p
+	}
+	segs := strings.Split(p, "/")
+	out := make([]string, 0, len(segs))
+	for i, seg := range segs {
+		last := i == len(segs)-1
+		switch seg {
+		case ".":
+			if last {
+				out = append(out, "")
+			}
+		case "..":
+			if len(out) > 1 {
+				out = out[:len(out)-1]
+			}
+			if last {
+				out = append(out, "")
+			}
+		default:
+			out = append(out, seg)
+		}
+	}
+	return strings.Join(out, "/")
 }
 
 func isHexDigit(c byte) bool {
